@@ -167,6 +167,20 @@ fn main() {
                         let p = gen::chain_prog(&ops, kinds, i);
                         emit_group(&mut out, "chains", &format!("idx={i},len={}", ops.len()), &[p]);
                     }
+                    "chainsf" => {
+                        // chains with one faulty operand: exhaustive chains up to length 3 with the
+                        // fault at every position, then random chains
+                        let mut r = gen::Rng::new(s);
+                        let ops = if i < 1554 * 2 { gen::chain_by_index((i / 4) as u64 % 258) } else {
+                            let len = 1 + r.below(12);
+                            (0..len).map(|_| *r.pick(&ir::ALL_OPS)).collect()
+                        };
+                        let kinds = r.next();
+                        let fpos = if i < 1554 * 2 { i % 4 } else { r.below(ops.len() + 1) } % (ops.len() + 1);
+                        let fk = (r.next() % 3) as u8;
+                        let p = gen::chain_prog_fault(&ops, kinds, i, Some((fpos, fk)));
+                        emit_group(&mut out, "chainsf", &format!("seed={s},len={},fault_at={fpos},kind={fk}", ops.len()), &[p]);
+                    }
                     "chainsr" => {
                         // random chains over all 15 operators, length up to 40
                         let mut r = gen::Rng::new(s);
